@@ -119,11 +119,22 @@ def listing(results_out):
     return sorted(out)
 
 
+import re as _re
+
+_LISTING_RE = _re.compile(r'^ *(\d+) (\d{4}-\d\d-\d\d \d\d:\d\d:\d\d|None) ', _re.M)
+
+
 def restore_listing(out):
-    """parse the numbered listing of trash-restore -> [(index, date, path)] in printed order"""
+    """parse the numbered listing of trash-restore -> [(index, date, path)] in printed order;
+    a path may contain newlines, an undated entry prints 'None'"""
+    heads = list(_LISTING_RE.finditer(out))
     res = []
-    for ln in out.split('\n'):
-        if len(ln) >= 5 and ln[:4].strip().isdigit() and ln[4] == ' ':
-            rest = ln[5:]
-            res.append((int(ln[:4]), rest[:19], rest[20:]))
+    for i, m in enumerate(heads):
+        end = heads[i + 1].start() if i + 1 < len(heads) else out.find('What file to restore')
+        if end < 0:
+            end = len(out)
+        p = out[m.end():end]
+        if p.endswith('\n'):
+            p = p[:-1]
+        res.append((int(m.group(1)), m.group(2), p))
     return res
